@@ -686,9 +686,9 @@ def run(ctx):
             return True
         fam = [c for c in fam if modest(c)]
         plan = [("a", gen_cluster.gen_c14_alias_cases(ctx.seed, 60 if quick else 4000), True),
-                ("m", gen_cluster.gen_c14_model_cases(ctx.seed, 300 if quick else 8000), True),
                 ("p", gen_cluster.gen_c14_par_cases(ctx.seed, 150 if quick else 5000), "par"),
                 ("n", gen_cluster.gen_c14_par_cases(ctx.seed + 7, 150 if quick else 5000), "nodes"),
+                ("m", gen_cluster.gen_c14_model_cases(ctx.seed, 300 if quick else 8000), True),
                 ("w", gen_cluster.gen_c14_wire_cases(ctx.seed, 200 if quick else 5000), True),
                 ("fam", fam, True)]
         cdir = lib.VERIF / "corpus"
